@@ -372,14 +372,18 @@ def inputSegs (cores nonCores : List Seg) : List InSeg :=
 def sortedCandidates (src dst : Nat) (segs : List InSeg) : List Sol :=
   sortSols (candidates (graphOf segs) src dst)
 
+/-- `solutions.iter().filter_map(path).filter(!has_loops)` then `filter_duplicates` -/
+def finish (sols : List Sol) : Except Site (List Path) :=
+  match pathsOf sols with
+  | .error st => .error st
+  | .ok ps => .ok (filterDuplicates (ps.filter fun p => !hasLoops p))
+
 /-- `combine(src, dst, cores, non_cores)` -/
 def combine (src dst : Nat) (cores nonCores : List Seg) : Except Site (List Path) :=
   if src = dst then .ok [] else
   let segs := inputSegs cores nonCores
   if !segs.all weightsOk then .error .weightUnderflow else
-  match pathsOf (sortedCandidates src dst segs) with
-  | .error st => .error st
-  | .ok ps => .ok (filterDuplicates (ps.filter fun p => !hasLoops p))
+  finish (sortedCandidates src dst segs)
 
 /-- two adjacent sorted candidates compare equal but yield different results: the order of the
 implementation's output then depends on hash-map iteration order -/
